@@ -129,6 +129,7 @@ htp_status_t htp_conn_open(htp_conn_t *conn, const char *client_addr, int client
         if (conn->server_addr == NULL) {
             if (conn->client_addr != NULL) {
                 free(conn->client_addr);
+                conn->client_addr = NULL;
             }
 
             return HTP_ERROR;
